@@ -45,10 +45,30 @@ ASSUMPTIONS = ["node names are interned to nat identifiers by the harness; the m
                "compared with the model only)"]
 
 VARIANTS = ["orig", "stable", "parallel"]
+# PDAG.to_dag hands its own latents set to the result (dag.latents = self.latents): mutating the result's latents
+# changes the PDAG.  Reported to the coordinator (unchanged-tree defect, class C); the probe is switched on once it
+# is repaired or listed.
+PROBE_LATENTS_ALIAS = False
 
 
 # ------------------------------------------------------------------ names with a known set-iteration order
 _POOL = None
+_POOL3 = None
+
+
+def _pool3():
+    """slot -> 3-character names (a 2-character pool name + one more character) with (h & 31) == slot < 8, keyed by
+    their 2-character prefix: used to get pairs of names one of which is a prefix of the other"""
+    global _POOL3
+    if _POOL3 is None:
+        _POOL3 = {}
+        base = [nm for s in range(8) for nm in _pool()[s]]
+        for nm in base:
+            for c in "0123456789xyzXYZ_":
+                h = hash(nm + c) & 31
+                if h < 8:
+                    _POOL3.setdefault((nm, h), nm + c)
+    return _POOL3
 
 
 def _pool():
@@ -71,6 +91,11 @@ def pick_names(rng, n):
     pool = _pool()
     slots = rng.sample(range(8), n)
     names = [rng.choice(pool[s]) for s in slots]
+    if n >= 2 and rng.random() < 0.35:      # names like x1 / x10: names[j] gets names[i] as a proper prefix
+        i, j = rng.sample(range(n), 2)
+        nm3 = _pool3().get((names[i], slots[j]))
+        if nm3 is not None:
+            names[j] = nm3
     sord = sorted(range(n), key=lambda i: slots[i])
     # run-time check of the trusted fact on this interpreter / hash seed
     exp = [names[i] for i in sord]
@@ -117,7 +142,7 @@ def cases(tier, seed):
         n = rng.randint(6, 8)
         _, edges = common.rand_dag(rng, n, p=rng.choice([0.15, 0.25, 0.35, 0.5]))
         out.append({"kind": "rand", "n": n, "edges": edges, "oseed": rng.randint(0, 10**9),
-                    "njobs": 2 if (tier == "thorough" and i % 100 == 0) else 1})
+                    "njobs": 2 if ((tier == "thorough" and i % 100 == 0) or (tier == "quick" and i < 2)) else 1})
     # truths on which rule 4 used to fire with adjacent X, Y (repaired defect ad4d524; found by random search
     # model-vs-spec), randomly relabelled
     nwit = 5 if tier == "quick" else 40
@@ -149,6 +174,24 @@ def cases(tier, seed):
                     break
             truths.append(edges)
         out.append({"kind": "session", "n": n, "truths": truths, "oseed": rng.randint(0, 10**9)})
+    # 9-10 variables (a set of small ints iterates in increasing order only below 8; names of any type)
+    nbig = 12 if tier == "quick" else 250
+    for i in range(nbig):
+        n = rng.choice([9, 10])
+        while True:
+            _, edges = common.rand_dag(rng, n, p=rng.choice([0.1, 0.15, 0.2]))
+            if 3 <= len(edges) <= 11:
+                break
+        out.append({"kind": "big", "n": n, "edges": edges, "oseed": rng.randint(0, 10**9)})
+    # sessions on one Independencies object / one PC(independencies=...) object: assertions added between calls
+    nis = 40 if tier == "quick" else 800
+    for i in range(nis):
+        n = rng.choice([3, 4, 4, 5])
+        while True:
+            _, edges = common.rand_dag(rng, n, p=rng.choice([0.4, 0.6, 0.8]))
+            if len(edges) >= 2:
+                break
+        out.append({"kind": "indsession", "n": n, "edges": edges, "oseed": rng.randint(0, 10**9)})
     ns2p = 1500 if tier == "quick" else 12000
     for i in range(ns2p):
         out.append({"kind": "s2p", "n": rng.randint(3, 7), "oseed": rng.randint(0, 10**9)})
@@ -199,19 +242,59 @@ class Oracle:
         self.g = g
         self.memo = {}
         self.n = 0
+        self.kw_seen = None
 
     def __call__(self, X, Y, Z, **kw):
         self.n += 1
+        self.kw_seen = kw
         key = (X, frozenset(Z))
         if key not in self.memo:
             self.memo[key] = self.g.active_trail_nodes(X, observed=list(Z), include_latents=True)[X]
         return Y not in self.memo[key]
 
 
-def frame(cols):
+def frame(cols, rng=None):
+    """a frame whose only role is to name the variables in column order.  With rng: row count 0..3, index RangeIndex /
+    shifted / permuted / gapped / duplicate / string labels, dtype int / bool / float / categorical with unused
+    categories, values constant or varying."""
     import numpy as np
     import pandas as pd
-    return pd.DataFrame(np.zeros((2, len(cols)), dtype=int), columns=cols)
+    if rng is None:
+        return pd.DataFrame(np.zeros((2, len(cols)), dtype=int), columns=cols)
+    r = rng.choice([0, 1, 2, 3, 3])
+    vals = np.array([[rng.randint(0, 1) for _ in cols] for _ in range(r)], dtype=int).reshape(r, len(cols))
+    kind = rng.choice(["int", "bool", "float", "cat", "catstr"])
+    if kind == "int":
+        df = pd.DataFrame(vals, columns=cols)
+    elif kind == "bool":
+        df = pd.DataFrame(vals.astype(bool), columns=cols)
+    elif kind == "float":
+        df = pd.DataFrame(vals.astype(float), columns=cols)
+    elif kind == "cat":
+        df = pd.DataFrame({c: pd.Categorical(list(vals[:, i]), categories=[0, 1, 2, 7]) for i, c in enumerate(cols)},
+                          columns=cols)
+    else:
+        df = pd.DataFrame({c: pd.Categorical([["x", "y"][v] for v in vals[:, i]], categories=["x", "y", "unused"])
+                           for i, c in enumerate(cols)}, columns=cols)
+    ik = rng.choice(["range", "shift", "perm", "gap", "dup", "str"])
+    if r > 0 and ik != "range":
+        if ik == "shift":
+            df.index = range(5, 5 + r)
+        elif ik == "perm":
+            ix = list(range(r))
+            rng.shuffle(ix)
+            df.index = ix
+        elif ik == "gap":
+            df.index = [3 * i + 1 for i in range(r)]
+        elif ik == "dup":
+            df.index = [0] * r
+        else:
+            df.index = ["r%d" % (r - i) for i in range(r)]
+    return df
+
+
+def frame_snapshot(df):
+    return (list(df.columns), list(df.index), [list(map(repr, row)) for row in df.values.tolist()], [str(t) for t in df.dtypes])
 
 
 def model_pc(drv, n, edges, oracle, vi, maxc, vars_, sord):
@@ -237,10 +320,25 @@ def check_pc(est, ci_test, names, idx, n, edges, drv, oracle, maxc, vars_, sord,
         kw = dict(variant=variant, ci_test=ci_test, max_cond_vars=maxc, show_progress=False, n_jobs=njobs)
         if extra_kw:
             kw.update(extra_kw)
+        lr = random.Random(repr((label, variant, maxc, vars_, sord, sorted(edges))))
+        # documented defaults reached by OMITTING the argument: variant="stable", max_cond_vars=5, return_type="dag"
+        if variant == "stable" and lr.random() < 0.5:
+            del kw["variant"]
+        if maxc >= n and n <= 5 and lr.random() < 0.4:    # default 5 >= n: the level loop ends by the degree test
+            del kw["max_cond_vars"]
+        if lr.random() < 0.03:
+            kw["show_progress"] = True
+        case_rt = (lambda t: t) if lr.random() < 0.6 else (lambda t: lr.choice([t.upper(), t.capitalize()]))
         mE, mseps, mp = model_pc(drv, n, edges, oracle, vi, maxc, vars_, sord)
-        ctx = {"mode": label, "variant": variant, "maxc": maxc, "vars": vars_, "sord": sord}
-        # ---- skeleton
-        sk, sep = est.estimate(return_type="skeleton", **kw)
+        ctx = {"mode": label, "variant": variant, "maxc": maxc, "vars": vars_, "sord": sord,
+               "omitted": sorted(set(["variant", "max_cond_vars"]) - set(kw))}
+        # ---- skeleton (through estimate, or through the public build_skeleton it wraps)
+        if lr.random() < 0.3:
+            bkw = {k: v for k, v in kw.items()}
+            sk, sep = est.build_skeleton(**bkw)
+            ctx["via"] = "build_skeleton"
+        else:
+            sk, sep = est.estimate(return_type=case_rt("skeleton"), **kw)
         gE = uset((idx[a], idx[b]) for a, b in sk.edges())
         gnodes = sorted(idx[a] for a in sk.nodes())
         gseps = {tuple(sorted(idx[a] for a in k)): tuple(idx[z] for z in v) for k, v in sep.items()}
@@ -254,10 +352,20 @@ def check_pc(est, ci_test, names, idx, n, edges, drv, oracle, maxc, vars_, sord,
                 return bad("impl!=spec:separating-set-missing", dict(ctx, have=sorted(gseps)))
         if gE != mE or gseps != mseps:
             return bad("impl!=model:skeleton", dict(ctx, impl=[gE, sorted(gseps.items())], model=[mE, sorted(mseps.items())]))
+        if isinstance(ci_test, Oracle) and ci_test.kw_seen is not None:
+            kws = ci_test.kw_seen
+            want_sl = kw.get("significance_level", 0.01)
+            if kws.get("data") is not est.data or kws.get("independencies") is not est.independencies \
+                    or kws.get("significance_level") != want_sl:
+                return bad("impl!=spec:ci_test-kwargs", dict(ctx, seen=sorted(kws), significance_level=kws.get("significance_level")))
+        # result independence: what was returned is the caller's; wrecking it must not reach later answers
+        sk.remove_edges_from(list(sk.edges()))
+        sk.add_edge("__x__", "__y__")
+        sep.clear()
         # ---- pdag / cpdag
         rt = "pdag" if vi != 1 else "cpdag"
         try:
-            p = est.estimate(return_type=rt, **kw)
+            p = est.estimate(return_type=case_rt(rt), **kw)
             gp = pdag_arcs(p, idx)
         except KeyError:
             p, gp = None, None
@@ -275,12 +383,22 @@ def check_pc(est, ci_test, names, idx, n, edges, drv, oracle, maxc, vars_, sord,
                          truth=(n, edges) if exact else None)
         if b:
             return b
-        d = est.estimate(return_type="dag", **kw)
+        for nd in list(p.nodes()):       # wreck the returned PDAG
+            p.remove_node(nd)
+        p.directed_edges.clear()
+        p.undirected_edges.clear()
+        if lr.random() < 0.5:
+            d = est.estimate(**kw)                                # return_type defaults to "dag"
+        else:
+            d = est.estimate(return_type=case_rt("dag"), **kw)
         gd = aset((idx[a], idx[b]) for a, b in d.edges())
         if exact:
             b = member_check(drv, n, edges, gd, gp, dict(ctx, stage="estimate(dag)"))
             if b:
                 return b
+            if all_nodes and sorted(idx[a] for a in d.nodes()) != list(range(n)):
+                return bad("impl!=spec:dag-nodes", dict(ctx, nodes=sorted(idx[a] for a in d.nodes())))
+        d.clear()
     return None
 
 
@@ -338,7 +456,27 @@ def check_to_dag(p, idx, drv, ctx, truth=None):
     c = p.copy()
     ns = [idx[a] for a in c.nodes()]
     arcs = [(idx[a], idx[b]) for a, b in c.edges()]
-    d = p.to_dag()
+    before = (sorted(map(repr, p.nodes())), sorted(map(repr, p.edges())), sorted(map(repr, p.directed_edges)),
+              sorted(map(repr, p.undirected_edges)), sorted(map(repr, p.latents)))
+    # the copy is the caller's: wrecking it must not reach p
+    c.remove_nodes_from(list(c.nodes()))
+    c.directed_edges.clear()
+    c.undirected_edges.clear()
+    d0 = p.to_dag()
+    first = (sorted(map(repr, d0.nodes())), sorted(map(repr, d0.edges())))
+    d0.remove_nodes_from(list(d0.nodes()))     # wreck the first answer, ask again (documented optional argument given)
+    if PROBE_LATENTS_ALIAS:
+        d0.latents.add("__x__")
+    req = [e for e in p.directed_edges][:1]
+    d = p.to_dag(required_edges=req) if (len(arcs) % 2) else p.to_dag()
+    if d is d0 or (sorted(map(repr, d.nodes())), sorted(map(repr, d.edges()))) != first:
+        return bad("impl!=spec:to_dag-second-call-differs", dict(ctx, first=first, second=sorted(map(repr, d.edges()))))
+    after = (sorted(map(repr, p.nodes())), sorted(map(repr, p.edges())), sorted(map(repr, p.directed_edges)),
+             sorted(map(repr, p.undirected_edges)), sorted(map(repr, p.latents)))
+    if before != after:
+        return bad("impl!=spec:to_dag-mutates-pdag", dict(ctx, before=before, after=after))
+    if set(map(repr, d.latents)) != set(map(repr, p.latents)):
+        return bad("impl!=spec:to_dag-latents", dict(ctx, impl=sorted(map(repr, d.latents)), pdag=sorted(map(repr, p.latents))))
     gd = aset((idx[a], idx[b]) for a, b in d.edges())
     md, fb = drv.call("c12_todag", [True, ns, [list(e) for e in arcs]])
     ctx = dict(ctx, pdag_nodes=ns, pdag_arcs=arcs)
@@ -392,7 +530,11 @@ def run_truth(case, drv):
         pass
     vars_ = list(range(n))
     rng.shuffle(vars_)
-    est = PC(data=frame([names[i] for i in vars_]))
+    df = frame([names[i] for i in vars_], rng)
+    df_snap = frame_snapshot(df)
+    est = PC(data=df)
+    if [idx[v] for v in est.variables] != vars_:
+        return bad("impl!=spec:variables-order", {"impl": [idx[v] for v in est.variables], "columns": vars_})
     maxcs = [n] if (light or case["kind"] == "rand") else sorted({n, md, max(md - 1, 0), 0})
     for maxc in maxcs:
         exact = maxc >= md
@@ -411,7 +553,18 @@ def run_truth(case, drv):
         tags.append("maxc-" + ("exact" if exact else "too-small"))
     if orc.n == 0 and n > 1:
         return bad("harness:oracle-never-called", {})
+    if frame_snapshot(df) != df_snap:
+        return bad("impl!=spec:data-frame-mutated", {"before": df_snap, "after": frame_snapshot(df)})
     tags.append("data+callable/str")
+    tags += ["frame rows=%d" % len(df), "frame dtype=%s" % (df_snap[3][0] if df_snap[3] else "-"),
+             "frame index=%s" % ("range" if list(df.index) == list(range(len(df))) else "other")]
+
+    # (ii'') names whose set-iteration order is not modelled (mixed int / str / float, one name a prefix of another,
+    # names that do not sort against each other): results that do not depend on that order are compared with the spec
+    if not light and n >= 3 and rng.random() < 0.3:
+        b = spec_only_route(case, drv, rng, n, edges, spec, tags)
+        if b:
+            return b
 
     # (ii') callable oracle, integer column names (sets of small ints iterate ascending)
     if not light or rng.random() < 0.3:
@@ -419,7 +572,7 @@ def run_truth(case, drv):
         gi = truth_dag(inames, n, edges)
         vars2 = list(range(n))
         rng.shuffle(vars2)
-        b = check_pc(PC(data=frame(vars2)), Oracle(gi), inames, {i: i for i in range(n)}, n, edges, drv, 0, n, vars2,
+        b = check_pc(PC(data=frame(vars2, rng)), Oracle(gi), inames, {i: i for i in range(n)}, n, edges, drv, 0, n, vars2,
                      list(range(n)), spec if spec is not None else sp_, True, "data+callable/int", light=True)
         if b:
             return b
@@ -448,10 +601,15 @@ def run_truth(case, drv):
             v2 = [idx2[v] for v in e2.variables]
             if v2 != sord2:
                 return bad("harness:variables-order", {"vars": v2, "sord": sord2})
-            b = check_pc(e2, "independence_match", names2, idx2, n, edges, drv, 0, n, v2, sord2, spec, True,
+            from pgmpy.estimators.CITests import independence_match as im_fun
+            ind_snap = [(sorted(a.event1), sorted(a.event2), sorted(a.event3)) for a in ind.get_assertions()]
+            b = check_pc(e2, im_fun if rng.random() < 0.5 else "independence_match",
+                         names2, idx2, n, edges, drv, 0, n, v2, sord2, spec, True,
                          "ind-pairwise", all_nodes=False, light=light)
             if b:
                 return b
+            if ind_snap != [(sorted(a.event1), sorted(a.event2), sorted(a.event3)) for a in ind.get_assertions()]:
+                return bad("impl!=spec:independencies-mutated", {"n": n, "truth": edges})
             tags.append("ind-pairwise")
         else:
             # PC takes its variable set from the assertions when no data is given: a node occurring in no
@@ -487,6 +645,73 @@ def run_truth(case, drv):
                 return b
     return ok(nontrivial=len(edges) > 0, tags=tags,
               key=common.canon_key([case["kind"], n, sorted(edges), vars_, sord, case.get("hashseed")]))
+
+
+def odd_names(rng, n):
+    """names outside the modelled set order: ints (also >= 8), floats, strings with prefix / keyword relations, mixed"""
+    pool = [0, 1, 7, 8, 9, 10, 31, 32, 2.5, -1, "x", "x1", "x10", "x11", "X", "None", "data", "Z", "ci_test", "0", "1",
+            "", "a b", "é", 1000003]
+    style = rng.choice(["mixed", "str", "int"])
+    if style == "str":
+        pool = [v for v in pool if isinstance(v, str)] + ["n%d" % i for i in range(12)]
+    elif style == "int":
+        pool = list(range(0, 40))
+    rng.shuffle(pool)
+    out = []
+    for v in pool:
+        if all(not (v == w) for w in out):     # 1 == 1.0 == True would collapse
+            out.append(v)
+        if len(out) == n:
+            break
+    return out, style
+
+
+def spec_only_route(case, drv, rng, n, edges, spec, tags):
+    """PC(data=frame) with a callable oracle under names whose set order the model does not know: skeleton, separating
+    sets (valid, complete), CPDAG and DAG membership against the specification; PDAG.to_dag with observed orders"""
+    from pgmpy.estimators import PC
+    names, style = odd_names(rng, n)
+    idx = {}
+    for i, nm in enumerate(names):
+        idx[nm] = i
+    g = truth_dag(names, n, edges)
+    cols = list(names)
+    rng.shuffle(cols)
+    est = PC(data=frame(cols, rng))
+    orc = Oracle(g)
+    nodes_l, edges_l = list(range(n)), [list(e) for e in edges]
+    if spec is None and len(edges) <= 11:
+        spec = aset(drv.call("c12_cpdag", [nodes_l, edges_l]))
+    truth_skel = uset(edges)
+    ctx0 = {"mode": "data+callable/odd-names:" + style, "names": [repr(x) for x in names]}
+    for variant in rng.sample(VARIANTS, 2 if n <= 6 else 1):
+        ctx = dict(ctx0, variant=variant)
+        kw = dict(variant=variant, ci_test=orc, max_cond_vars=n, show_progress=False, n_jobs=1)
+        sk, sep = est.estimate(return_type="skeleton", **kw)
+        gE = uset((idx[a], idx[b]) for a, b in sk.edges())
+        if gE != truth_skel or sorted(idx[a] for a in sk.nodes()) != nodes_l:
+            return bad("impl!=spec:skeleton", dict(ctx, impl=gE, truth=truth_skel))
+        gseps = {tuple(sorted(idx[a] for a in k)): [idx[z] for z in v] for k, v in sep.items()}
+        for (u, v), S in gseps.items():
+            if (u, v) in set(truth_skel) or u in S or v in S or not drv.call("c12_dsep", [nodes_l, edges_l, u, v, S]):
+                return bad("impl!=spec:separating-set", dict(ctx, pair=[u, v], sep=S))
+        if set(gseps) != set(itertools.combinations(range(n), 2)) - set(truth_skel):
+            return bad("impl!=spec:separating-set-missing", dict(ctx, have=sorted(gseps)))
+        p = est.estimate(return_type="cpdag", **kw)
+        gp = pdag_arcs(p, idx)
+        if spec is not None and gp != spec:
+            return bad("impl!=spec:cpdag", dict(ctx, impl=gp, spec=spec, truth=edges))
+        if sorted(idx[a] for a in p.nodes()) != nodes_l:
+            return bad("impl!=spec:cpdag-nodes", dict(ctx, nodes=sorted(idx[a] for a in p.nodes())))
+        b = check_to_dag(p, idx, drv, dict(ctx, stage="pc-pdag.to_dag"), truth=(n, edges))
+        if b:
+            return b
+        d = est.estimate(return_type="dag", **kw)
+        b = member_check(drv, n, edges, aset((idx[a], idx[b_]) for a, b_ in d.edges()), gp, dict(ctx, stage="estimate(dag)"))
+        if b:
+            return b
+    tags.append("odd-names:" + style)
+    return None
 
 
 def inexact_literal(est, names, idx, n, edges, drv, vars_, sord, spec):
@@ -538,6 +763,7 @@ def run_s2p(case, drv):
         S = [z for z in rest if rng.random() < 0.4]
         seps.append([u, v, S])
         sepd[frozenset((names[u], names[v]))] = tuple(names[z] for z in S)
+    snap = (list(sk.nodes()), sorted(map(sorted, sk.edges())), dict(sepd))
     try:
         g = pdag_arcs(PC.skeleton_to_pdag(sk, sepd), idx)
     except KeyError:
@@ -546,6 +772,19 @@ def run_s2p(case, drv):
     m = aset(m[0]) if m else None
     if g != m:
         return bad("impl!=model:skeleton_to_pdag", {"vars": vars_, "sord": sord, "E": E, "seps": seps, "impl": g, "model": m})
+    if snap != (list(sk.nodes()), sorted(map(sorted, sk.edges())), dict(sepd)):
+        return bad("impl!=spec:skeleton_to_pdag-mutates-arguments", {"E": E, "seps": seps})
+    # second call with the SAME skeleton object and other separating sets (all conditioning on everything else)
+    seps2 = [[u, v, [z for z in range(n) if z not in (u, v)]] for u, v, _ in seps]
+    sepd2 = {frozenset((names[u], names[v])): tuple(names[z] for z in S) for u, v, S in seps2}
+    try:
+        g2 = pdag_arcs(PC.skeleton_to_pdag(sk, sepd2), idx)
+    except KeyError:
+        g2 = None
+    m2 = drv.call("c12_s2p", [vars_, sord, [list(e) for e in E], seps2])
+    m2 = aset(m2[0]) if m2 else None
+    if g2 != m2:
+        return bad("impl!=model:skeleton_to_pdag-second-call", {"vars": vars_, "sord": sord, "E": E, "seps": seps2, "impl": g2, "model": m2})
     ndir = 0 if g is None else sum(1 for (a, b) in g if (b, a) not in set(g))
     return ok(nontrivial=len(E) > 0, key=common.canon_key(["s2p", vars_, sord, E, seps]),
               tags=["s2p n=%d" % n, "keyerror" if g is None else ("directed>0" if ndir else "directed=0")])
@@ -600,9 +839,28 @@ def run_todag(case, drv):
     rng.shuffle(dire)
     rng.shuffle(und)
     und = [(a, b) if rng.random() < 0.5 else (b, a) for a, b in und]
-    p = PDAG(directed_ebunch=[(names[a], names[b]) for a, b in dire],
-             undirected_ebunch=[(names[a], names[b]) for a, b in und])
-    b = check_to_dag(p, idx, drv, {"stage": "to_dag", "src": src})
+    de = [(names[a], names[b]) for a, b in dire]
+    ue = [(names[a], names[b]) for a, b in und]
+    de0, ue0 = list(de), list(ue)
+    used = sorted({x for e in arcs for x in e})
+    lat = [names[x] for x in used if rng.random() < 0.2] if rng.random() < 0.4 else []
+    p = PDAG(directed_ebunch=de, undirected_ebunch=ue, latents=lat) if (lat or rng.random() < 0.5) \
+        else PDAG(de, ue)
+    if (de, ue) != (de0, ue0):
+        return bad("impl!=spec:PDAG-mutates-arguments", {"directed": de0, "undirected": ue0})
+    iso = [nm for nm in names if idx[nm] not in used and rng.random() < 0.7]
+    p.add_nodes_from(iso)                        # isolated nodes, as estimate() adds the remaining data columns
+    b = check_to_dag(p, idx, drv, {"stage": "to_dag", "src": src, "isolated": [idx[x] for x in iso]})
+    if b:
+        return b
+    # the same ebunch lists reused for a second, reversed, object: the first object is unaffected
+    p2 = PDAG(directed_ebunch=de[::-1], undirected_ebunch=ue[::-1])
+    de.clear()
+    ue.clear()
+    b = check_to_dag(p2, idx, drv, {"stage": "to_dag second object", "src": src})
+    if b:
+        return b
+    b = check_to_dag(p, idx, drv, {"stage": "to_dag after the argument lists were cleared", "src": src})
     if b:
         return b
     ns = sorted({x for e in arcs for x in e})
@@ -638,11 +896,29 @@ def run_session(case, drv):
     idx = {nm: i for i, nm in enumerate(names)}
     vars_ = list(range(n))
     rng.shuffle(vars_)
-    est = PC(data=frame([names[i] for i in vars_]))
+    est = PC(data=frame([names[i] for i in vars_], rng))
     tags = ["session n=%d" % n, "session calls=%d" % len(case["truths"])]
     for ti, edges in enumerate(case["truths"]):
         edges = [tuple(e) for e in edges]
         g = truth_dag(names, n, edges)
+        if ti > 0:
+            # a call that must be rejected (the invalid argument is not the first one), then business as usual
+            o_rej = make_oracle(g)
+            which = rng.choice(["variant", "return_type", "ci_test", "independence_match-without-independencies"])
+            rkw = dict(variant="stable", ci_test=o_rej, max_cond_vars=n, return_type="pdag", show_progress=False, n_jobs=1)
+            if which == "variant":
+                rkw["variant"] = rng.choice(["Stable", "pc", "", "parallel "])
+            elif which == "return_type":
+                rkw["return_type"] = rng.choice(["graph", "", "dags"])
+            elif which == "ci_test":
+                rkw["ci_test"] = rng.choice(["d_separation", "oracle"])
+            else:
+                rkw["ci_test"] = "independence_match"
+            try:
+                est.estimate(**rkw)
+                return bad("impl!=spec:rejected-call-accepted", {"which": which, "kwargs": {k: repr(v) for k, v in rkw.items()}})
+            except ValueError:
+                tags.append("rejected:" + which)
         md = maxdeg(n, edges)
         maxc = rng.choice([n, n, md, max(md - 1, 0)])
         exact = maxc >= md
@@ -661,9 +937,82 @@ def run_session(case, drv):
               key=common.canon_key(["session", n, case["truths"], vars_, sord]))
 
 
+def run_big(case, drv):
+    n, edges = case["n"], [tuple(e) for e in case["edges"]]
+    rng = random.Random(case["oseed"])
+    tags = ["big n=%d" % n, "edges=%d" % len(edges)]
+    b = spec_only_route(case, drv, rng, n, edges, None, tags)
+    if b:
+        return b
+    return ok(nontrivial=True, tags=tags, key=common.canon_key(["big", n, sorted(edges), case["oseed"]]))
+
+
+def pairwise_assertions(o, names, n):
+    out = []
+    for x, y in itertools.combinations(range(n), 2):
+        rest = [z for z in range(n) if z not in (x, y)]
+        for r in range(len(rest) + 1):
+            for Z in itertools.combinations(rest, r):
+                if o(names[x], names[y], [names[z] for z in Z]):
+                    out.append((x, y, Z))
+    return out
+
+
+def run_indsession(case, drv):
+    """ONE Independencies object and ONE PC(independencies=it) object.  The truth loses one edge at a time (a
+    sub-DAG has every independence of the DAG and more), the new assertions are ADDED to the same object between
+    the estimate() calls; every answer must be exact for the CURRENT list (= a freshly built object)."""
+    from pgmpy.estimators import PC
+    from pgmpy.independencies import Independencies
+    rng = random.Random(case["oseed"])
+    n = case["n"]
+    edges = [tuple(e) for e in case["edges"]]
+    names, sord = pick_names(rng, n)
+    idx = {nm: i for i, nm in enumerate(names)}
+    ind = Independencies()
+    est = None
+    have = set()
+    steps = 0
+    tags = ["indsession n=%d" % n]
+    while True:
+        g = truth_dag(names, n, edges)
+        cur = pairwise_assertions(Oracle(g), names, n)
+        new = [a for a in cur if a not in have]
+        if not set(have) <= set(cur):
+            return bad("harness:sub-DAG-lost-an-independence", {"edges": edges})
+        rng.shuffle(new)
+        ind.add_assertions(*[[names[x], names[y], [names[z] for z in Z]] if rng.random() < 0.5
+                             else [names[y], names[x], [names[z] for z in reversed(Z)]] for x, y, Z in new])
+        have |= set(new)
+        present = sorted(idx[v] for v in ind.get_all_variables())
+        if present == list(range(n)):
+            if est is None or rng.random() < 0.3:
+                est = PC(independencies=ind)          # sometimes a new estimator on the SAME, grown, list
+            if sorted(idx[v] for v in est.variables) == list(range(n)):
+                v2 = [idx[v] for v in est.variables]
+                spec = aset(drv.call("c12_cpdag", [list(range(n)), [list(e) for e in edges]]))
+                b = check_pc(est, "independence_match", names, idx, n, edges, drv, 0, n, v2, sord, spec, True,
+                             "ind-session step %d" % steps, all_nodes=False, only_variants=rng.sample([0, 1, 2], 2))
+                if b:
+                    return b
+                steps += 1
+            else:
+                est = None      # the estimator took its variables from the shorter list: API limitation, start again
+        if not edges or steps >= 3:
+            break
+        edges = list(edges)
+        edges.pop(rng.randrange(len(edges)))
+    tags.append("indsession steps=%d" % steps)
+    return ok(nontrivial=steps > 0, tags=tags, key=common.canon_key(["indsession", n, case["edges"], case["oseed"]]))
+
+
 def run_case(case, drv):
     if case["kind"] == "session":
         return run_session(case, drv)
+    if case["kind"] == "big":
+        return run_big(case, drv)
+    if case["kind"] == "indsession":
+        return run_indsession(case, drv)
     if case["kind"] in ("exh", "rand"):
         return run_truth(case, drv)
     if case["kind"] == "s2p":
